@@ -222,6 +222,8 @@ Quiescent ==
   \* C04: an operation all of whose requests the peer has answered (after they were sent) completes - with those answers
   /\ Imp("C04", \A o \in DOMAIN ops : (ops[o].st = "open" /\ ~stopped /\ CallIds(o) # {}
                                         /\ \A x \in CallIds(o) : x \in DOMAIN got /\ \E q \in got[x] : ~q.pre) => FALSE)
+  \* once Recv has failed (end of stream, a closing-class error, any other error, an undecodable record) the client has stopped
+  /\ Imp("C05", rdDone => stopped)
   \* (OnStop has no deadline short of Close returning: Close runs it after waiting for the reader and callbacks)
   /\ Imp("C05", (stopped /\ ~closeOpen) => onstop = 1)
   /\ UNCHANGED <<ops, idof, live, got, idres, stopped, pend, causes, sendBad, oncancel, onstop, cbrun, closeOpen, closeDone, rdDone>>
